@@ -478,6 +478,7 @@ pub fn hist<F: BoolExt>(args: &Args) {
         let cache = [1usize, 2, 16, 1024][rng.below(4)];
         let threads = [1u32, 1, 2, 4][rng.below(4)];
         let mut s: Session<F> = Session::new(&mut out, 1 << 16, cache, threads);
+        s.rotate_add = true;
         // the high-water mark of the background collector (95 % of the capacity) is far out of reach
         s.add_vars(n0);
         if rng.chance(1, 2) {
@@ -731,9 +732,16 @@ pub fn hist<F: BoolExt>(args: &Args) {
                 p.truncate(keep);
                 s.reorder(&p);
                 s.snap();
-            } else {
+            } else if rng.chance(1, 2) {
                 let a = pick(&mut rng, &live);
                 cofactors_of(&mut s, a);
+            } else {
+                // DDDMP export of a few handles (shared sub-diagrams are visited more than once),
+                // then the full audit
+                let k = 1 + rng.below(3);
+                let roots: Vec<Slot> = (0..k).map(|_| pick(&mut rng, &live)).collect();
+                s.export(&roots, rng.chance(1, 2));
+                s.snap();
             }
             if rng.chance(1, 10) {
                 s.obs();
@@ -958,7 +966,11 @@ pub fn replay<F: BoolExt>(args: &Args) {
             }
             let sl = |v: &Value| v.as_u64().unwrap() as usize;
             match e["ev"].as_str().unwrap() {
-                "add_vars" => s.add_vars(e["k"].as_u64().unwrap() as u32),
+                "add_vars" => {
+                    // the same entry point as in the recording
+                    s.force_via = e.get("via").and_then(|v| v.as_u64()).map(|v| v as u32);
+                    s.add_vars(e["k"].as_u64().unwrap() as u32)
+                }
                 "reorder" => {
                     let req: Vec<u32> = e["req"].as_array().unwrap().iter().map(|x| x.as_u64().unwrap() as u32).collect();
                     s.reorder(&req)
@@ -1075,6 +1087,10 @@ pub fn replay<F: BoolExt>(args: &Args) {
                         }
                         o => panic!("harness: replay of {o} not supported"),
                     }
+                }
+                "export" => {
+                    let a: Vec<usize> = e["a"].as_array().unwrap().iter().map(sl).collect();
+                    s.export(&a, e["ascii"].as_bool().unwrap_or(true));
                 }
                 "begin" | "rows" | "adopt" | "pick" | "unistat" | "satcount" | "abort" => {
                     if e["ev"] == "adopt" {
